@@ -349,6 +349,12 @@ def handle : Handler
       match res with
       | .ok ps => some ("ok " ++ (if ps.isEmpty then "-" else ",".intercalate (ps.map showAPath)))
       | .error e => some ("err " ++ e.show)) "bad-args"
+  -- the member check alone (archives with link members: what tarfile then does is its own contract)
+  | "c18.extract_check", [cwd, path, members] => some <| Option.getD (do
+      let res := Persist.safeExtract (← chars? cwd) (← chars? path) (← charss? members)
+      match res with
+      | .ok _ => some "ok accepted"
+      | .error e => some ("err " ++ e.show)) "bad-args"
   -- spec: every written location (as observed on disk, absolute normalised strings) is inside the folder
   | "c18.spec_inside", [dir, written] => some <| Option.getD (do
       let d := Persist.normAbs (← chars? dir)
